@@ -103,6 +103,10 @@ class Engine:
         self.discharged = 0
         self.unknown = 0
         self.violations = []
+        self.truncated = 0
+        self.max_values_per_site = 16
+        self.stop_after_failures = 40
+        self.stopped_early = False
         self.nfail = 0
         self.viol_per_clause = {}
         self.clauses = {}
@@ -206,7 +210,9 @@ class Engine:
         if self.check() != z3.sat:
             raise Abort()
         v = self.solver.model().eval(e, model_completion=True).as_long()
-        if self.check(e != v) == z3.sat:
+        if len(excluded) >= self.max_values_per_site:
+            self.truncated += 1  # unbounded enumeration: the run is incomplete from here (reported)
+        elif self.check(e != v) == z3.sat:
             self.pending.append(self.script[: self.pos] + [("ne", excluded + [v])])
             self.forks += 1
         self.script.append(("eq", v))
@@ -239,7 +245,9 @@ class Engine:
         if mv is None:
             raise Inconclusive("model value of real term not numeric")
         v = math.floor(mv)
-        if self.check(z3.Or(e < v, e >= v + 1)) == z3.sat:
+        if len(excluded) >= self.max_values_per_site:
+            self.truncated += 1
+        elif self.check(z3.Or(e < v, e >= v + 1)) == z3.sat:
             self.pending.append(self.script[: self.pos] + [("nf", excluded + [v])])
             self.forks += 1
         self.script.append(("fl", v))
@@ -362,7 +370,13 @@ class Engine:
         st = self.clauses.setdefault(clause, dict(obligations=0, discharged=0, violated=0, unknown=0))
         st["obligations"] += 1
         r = None
-        if quick:
+        cs = z3.simplify(claim)
+        if z3.is_true(cs):
+            r, m = "unsat", None
+        elif z3.is_false(cs):
+            # reachability of this point is all that matters: the incremental core already knows
+            r, m = ("sat", self.solver.model()) if self.check() == z3.sat else ("unsat", None)
+        if r is None and quick:
             # linear side conditions (index ranges): the incremental core decides them in microseconds
             self.solver.set("timeout", 2000)
             self.queries += 1
@@ -454,6 +468,10 @@ class Engine:
                 self.solver.pop()
             if self.paths + self.aborted > max_paths:
                 raise Inconclusive(f"path budget {max_paths} exceeded")
+            if self.nfail >= self.stop_after_failures and self.pending:
+                # the check is already failing: completeness no longer matters, stop exploring
+                self.stopped_early = True
+                break
         return results
 
 
